@@ -186,17 +186,15 @@ def analyse(src: Source) -> List[Report]:
                    f"the quantity compared with the draw must be the true potential's event rate; its definitions reach {sorted(ro) or 'neither potential'}")
             rep.ob("R4.1-bounding-rate-side", BOUND in bo and TRUE not in bo, loc, f"B = {norm(s.bexpr)} <- {sorted(bo)}",
                    f"the draw must be scaled by the bounding event rate the event was proposed with; its definitions reach {sorted(bo) or 'neither'}")
-            # R4.2 for this site
-            accept_region: List[ast.stmt] = list(s.node.body) if s.accept_is_body else []
+            # R4.2 for this site: nothing reachable over the rejecting edge changes a velocity
             reject_region: List[ast.stmt] = list(s.node.orelse) if s.accept_is_body else list(s.node.body)
-            if not s.accept_is_body:
-                ends = bool(reject_region) and isinstance(reject_region[-1], ast.Return)
-                rep.ob("R4.2-reject-returns", ends, loc, s.node.test, "the rejecting branch must return at once")
+            if not _ends(reject_region):
+                reject_region = reject_region + _following(s.ref.fn, s.node)
             writes = [st for r in reject_region for st, *_ in stores(r)]
             calls = [c for r in reject_region for c in ast.walk(r) if isinstance(c, ast.Call) and isinstance(c.func, ast.Attribute)
                      and isinstance(c.func.value, ast.Name) and c.func.value.id == "self" and c.func.attr in changers]
             rep.ob("R4.2-reject-leaves-velocities", not writes and not calls, loc, f"rejecting branch of {norm(s.node.test)}",
-                   "an unconfirmed event must leave all velocities unchanged")
+                   "an unconfirmed event must leave all velocities unchanged (the rejecting edge must not reach a velocity change)")
         # R4.2 control dependence of velocity-changing calls in the functions that contain sites, and their callers
         site_fns = {id(s.ref.fn) for s in sites}
         for ref in facts.out_closure:
@@ -210,7 +208,7 @@ def analyse(src: Source) -> List[Report]:
                 if not (isinstance(c, ast.Call) and isinstance(c.func, ast.Attribute) and isinstance(c.func.value, ast.Name)
                         and c.func.value.id == "self" and c.func.attr in changers):
                     continue
-                callee_guarded = any(id(s.ref.fn) == id(prog.all_methods(h)[c.func.attr][1]) for s in sites) if c.func.attr in prog.all_methods(h) else False
+                callee_guarded = any(s.ref.orig is prog.all_methods(h)[c.func.attr][1] for s in sites) if c.func.attr in prog.all_methods(h) else False
                 guarded = callee_guarded or _under_accept(ref.fn, c, [s for s in sites if s.ref.fn is ref.fn])
                 if ref.fn.name in [r.fn.name for r in facts.send_out_state] or id(ref.fn) in site_fns:
                     rep.ob("R4.2-velocity-change-needs-acceptance", guarded, Loc(ref.file, c.lineno, f"{h.name}: {ref.qual}"), c,
@@ -345,20 +343,43 @@ def analyse(src: Source) -> List[Report]:
     return [rep]
 
 
+def _ends(stmts: List[ast.stmt]) -> bool:
+    return bool(stmts) and isinstance(stmts[-1], (ast.Return, ast.Raise))
+
+
+def _following(fn: ast.FunctionDef, node: ast.stmt) -> List[ast.stmt]:
+    """statements that can run after `node` completes normally (enclosing loops are included whole)"""
+    out: List[ast.stmt] = []
+    cur: ast.AST = node
+    while cur is not fn:
+        parent = None
+        for owner in ast.walk(fn):
+            for fld in ("body", "orelse", "finalbody"):
+                blk = getattr(owner, fld, None)
+                if isinstance(blk, list) and any(x is cur for x in blk):
+                    i = [k for k, x in enumerate(blk) if x is cur][0]
+                    out.extend(blk[i + 1:])
+                    parent = owner
+            if parent is None and isinstance(owner, ast.Try) and any(x is cur for h in owner.handlers for x in h.body):
+                parent = owner
+            if parent is not None:
+                break
+        if parent is None:
+            break
+        if isinstance(parent, (ast.For, ast.While)):
+            out.append(parent)
+        cur = parent
+    return out
+
+
 def _under_accept(fn: ast.FunctionDef, call: ast.Call, sites: List[Site]) -> bool:
     for s in sites:
-        if s.accept_is_body:
-            if any(x is call for st in s.node.body for x in ast.walk(st)):
-                return True
-        else:
-            # rejecting early return: everything after the if in the same block is the accepting region
-            for owner in ast.walk(fn):
-                for fld in ("body", "orelse"):
-                    blk = getattr(owner, fld, None)
-                    if isinstance(blk, list) and any(x is s.node for x in blk):
-                        i = [k for k, x in enumerate(blk) if x is s.node][0]
-                        if any(x is call for st in blk[i + 1:] for x in ast.walk(st)):
-                            return True
+        accept, reject = (s.node.body, s.node.orelse) if s.accept_is_body else (s.node.orelse, s.node.body)
+        if any(x is call for st in accept for x in ast.walk(st)):
+            return True
+        # the rejecting branch leaves the function: everything after the test is the accepting region
+        if _ends(reject) and any(x is call for st in _following(fn, s.node) for x in ast.walk(st)):
+            return True
     return False
 
 
